@@ -204,7 +204,11 @@ func c32(c *report.Check, thorough bool, only string) {
 			for rpt := 0; rpt < repeats; rpt++ {
 				evalReq++
 				p := proofOf(k, kind)
-				resp, err := srv.RequestCertificate(context.Background(), &protocol.CertificateRequest{Proof: p})
+				var resp *protocol.CertificateResponse
+				err := safely(func() (e error) {
+					resp, e = srv.RequestCertificate(context.Background(), &protocol.CertificateRequest{Proof: p})
+					return
+				})
 				want := refPkiProofOK(p)
 				cs := map[string]any{"op": "request", "key": k, "proof": kind, "issued": err == nil, "error": errClass(err)}
 				if (err == nil) != want {
@@ -323,6 +327,9 @@ func c32(c *report.Check, thorough bool, only string) {
 	}
 	var olds []oldCert
 	certKeys := []int{keys[0], keys[1]}
+	if thorough {
+		certKeys = []int{keys[0], keys[1], keys[2]}
+	}
 	for _, issuer := range []string{"client-ca", "foreign-same-name", "foreign", "self"} {
 		for _, version := range []string{"v2", "v2-other-hash", "with-org", "v1", "v3", "two-part", "empty-cn", "non-numeric-id"} {
 			if version == "non-numeric-id" && issuer == "client-ca" {
@@ -359,15 +366,21 @@ func c32(c *report.Check, thorough bool, only string) {
 
 	evalRen, renewed := 0, 0
 	proofKeysFor := func(o oldCert) []int {
-		ks := []int{keys[0], keys[1], keys[2]}
-		return ks
+		if thorough {
+			return keys
+		}
+		return []int{keys[0], keys[1], keys[2]}
 	}
 	for _, o := range append(olds, raws...) {
 		for _, pkIdx := range proofKeysFor(o) {
 			for _, kind := range pkiProofKinds {
 				evalRen++
 				p := proofOf(pkIdx, kind)
-				resp, err := srv.RenewCertificate(context.Background(), &protocol.CertificateRenewalRequest{Proof: p, CurrentCertDer: o.der})
+				var resp *protocol.CertificateResponse
+				err := safely(func() (e error) {
+					resp, e = srv.RenewCertificate(context.Background(), &protocol.CertificateRenewalRequest{Proof: p, CurrentCertDer: o.der})
+					return
+				})
 				cs := map[string]any{"op": "renew", "old_certificate": o.label, "proof_key": pkIdx, "proof": kind, "renewed": err == nil, "error": errClass(err)}
 				sameKey := o.keyIdx != 0 && o.keyIdx == pkIdx
 				dist.See(fmt.Sprintf("renew:%s:%s:%s:%s:ed=%v:samekey=%v:%s:%v", o.issuer, o.version, o.valid, o.eku, o.keyIdx != 0, sameKey, kind, err == nil), cs)
@@ -415,7 +428,11 @@ func c32(c *report.Check, thorough bool, only string) {
 					rep.viol(sig("identity-changed"), fmt.Sprintf("identity %+v became %+v", oldID, newID), cs)
 				}
 				// renewing the renewed certificate keeps it again
-				resp2, err2 := srv.RenewCertificate(context.Background(), &protocol.CertificateRenewalRequest{Proof: p, CurrentCertDer: resp.GetCertDer()})
+				var resp2 *protocol.CertificateResponse
+				err2 := safely(func() (e error) {
+					resp2, e = srv.RenewCertificate(context.Background(), &protocol.CertificateRenewalRequest{Proof: p, CurrentCertDer: resp.GetCertDer()})
+					return
+				})
 				evalRen++
 				if err2 == nil {
 					id2 := checkIssued("renew2", resp2.GetCertDer(), resp2.GetCertPem(), wantKey, cs)
@@ -435,9 +452,10 @@ func c32(c *report.Check, thorough bool, only string) {
 	c.Set("renew_cases", evalRen)
 	c.Set("certificates_issued_and_checked", issuedCount)
 	c.Set("renewals_succeeded", renewed)
+	c.Set("handler_panics", int(handlerPanics.Load()))
 	c.Set("old_certificates", len(olds)+len(raws))
 	c.Set("distinct_nontrivial", dist.N())
-	c.Set("rule", fmt.Sprintf("request: %d keys x proof %v x %d repeats; renew: old certificate = issuer {client CA, foreign CA with the same DN, foreign CA, self-signed} x subject {v2, v2 with another key's hash, v2+organization, v1, v3, two-part, no CN, non-numeric id (foreign issuers only)} x validity {current, expired, not yet valid} x EKU {client, server} x 2 ed25519 keys, plus ECDSA-keyed, server-issued and 4 malformed encodings, each x proof key {3 keys} x proof %v; successful renewals are renewed once more; "+
+	c.Set("rule", fmt.Sprintf("request: %d keys x proof %v x %d repeats; renew: old certificate = issuer {client CA, foreign CA with the same DN, foreign CA, self-signed} x subject {v2, v2 with another key's hash, v2+organization, v1, v3, two-part, no CN, non-numeric id (foreign issuers only)} x validity {current, expired, not yet valid} x EKU {client, server} x 2 (thorough 3) ed25519 keys, plus ECDSA-keyed, server-issued and 4 malformed encodings, each x proof key {3 keys, thorough 6} x proof %v; successful renewals are renewed once more; "+
 		"class = (issuer, subject form, validity, EKU, key type, same key, proof, outcome)", len(keys), pkiProofKinds, repeats, pkiProofKinds))
 	c.Set("samples", dist.Samples())
 	c.Set("exhaustive", true)
